@@ -308,7 +308,7 @@ def a_loop_trace(E, sc, kfn, init, xs, n):
     return old, inner, carry, ys
 
 
-@task("scan.edit_index", props=["C01", "C05", "C06", "C12"], functions=FUNCS)
+@task("scan.edit_index", props=["C01", "C05", "C06", "C12", "C34"], functions=FUNCS)
 def t_edit_index(E):
     """IndexRequest(idx, r) with unchanged arguments: slice idx is edited by r, slice idx+1 (when there is one) is re-visited
     with the changed carry, every other slice is kept; the trace is again a trace of the documented loop"""
@@ -356,8 +356,9 @@ def t_edit_index(E):
     # C01: the new trace is a trace of the loop: assess re-runs it in lockstep along the new carry chain
     new_carry = lambda i: z3.If(i == idx.t + 1, T.d_primal(p0(rd1)), carry(i))
     # C12: the score is the sum of the (new) kernel scores
+    # (C34: the stacked kernel sub-traces' scores are exactly the parent's score contributions)
     E.prove("C12.Scan.edit_index.score_is_sum_of_new_kernel_scores", E.eq(
-        E.method(new, "get_score"), E.I.make_sum(Stacked(n, lambda i: SReal(T.tr_score(ni.at(i).t))))))
+        E.method(new, "get_score"), E.I.make_sum(Stacked(n, lambda i: SReal(T.tr_score(ni.at(i).t))))), also=["C34"])
     nb = n_scans(E)
     score, aret = wf(E, sc, new)
     al = the_loop(E, nb, "Scan.assess")
